@@ -124,6 +124,29 @@ def run_case(case):
         if spec.get("base") is not None:
             continue
         hist = spec["hist"]
+        if spec.get("direct"):
+            # a frozen ballot that never went through Ballot.frozen(): built from a sequence / dict in the given order,
+            # from another frozen ballot, or from a mutable ballot
+            kw = {}
+            if spec["name"]:
+                kw["name"] = "v%d" % spec["name"]
+            if spec["meta"]:
+                kw["meta"] = dict(METAS[spec["meta"]])
+            rep = spec.get("numrep", "int")
+            if kind in ("app", "ord"):
+                seq = [proj(h[1]) for h in hist]
+                seq = seq if spec.get("seqtype") != "tuple" else tuple(seq)
+            else:
+                seq = {}
+                for h in hist:
+                    seq[proj(h[1])] = _num(h[2], rep)
+            if spec["direct"] == "seq":
+                ballots[j] = FrozenC(seq, **kw)
+            elif spec["direct"] == "frozen":
+                ballots[j] = FrozenC(FrozenC(seq, **kw))
+            else:
+                ballots[j] = FrozenC(BallotC(seq, **kw))
+            continue
         nc = spec.get("ctor", 0)
         rep = spec.get("numrep", "int")
         kw = {}
@@ -158,6 +181,11 @@ def run_case(case):
                     apply_step(b, h, spec.get("numrep", "int"))
                 ballots[j] = b
 
+    from pabutools.election.ballot import FrozenBallot as _FB
+
+    def fzof(b):
+        return b if isinstance(b, _FB) else b.frozen()
+
     def feed(idxs, kind, frozen=False):
         """the ballots as an iterable of the requested KIND; '+fresh': every element is a temporary object built on
         the fly (a copy-constructed ballot resp. a newly frozen one) that dies as soon as the consumer drops it"""
@@ -165,9 +193,10 @@ def run_case(case):
         fresh = ikind.endswith("+fresh")
         k = ikind.split("+")[0]
         if frozen:
-            f = (lambda i: FrozenC(ballots[i].frozen())) if fresh else (lambda i: ballots[i].frozen())
+            f = (lambda i: FrozenC(fzof(ballots[i]))) if fresh else (lambda i: fzof(ballots[i]))
         else:
-            f = (lambda i: BallotC(ballots[i])) if fresh else (lambda i: ballots[i])
+            f = (lambda i: (FrozenC(ballots[i]) if isinstance(ballots[i], _FB) else BallotC(ballots[i]))) if fresh \
+                else (lambda i: ballots[i])
         if k == "list":
             return [f(i) for i in idxs]
         if k == "tuple":
@@ -211,7 +240,7 @@ def run_case(case):
     for t, op in rest:
         edits_due(t)
         if op[0] == "append":
-            mp.append(ballots[op[1]].frozen())
+            mp.append(fzof(ballots[op[1]]))
         elif op[0] == "extend":
             mp.extend(feed(op[1], op[2] if len(op) > 2 else "list"))
         elif op[0] == "extend_frozen":
@@ -237,7 +266,7 @@ def run_case(case):
             cur_items.append(snap[j][0]); fz.append(snap[j][1]); mids.append(snap[j][2])
         else:
             b = ballots[j]
-            cur_items.append(items_of(b)); fz.append(b.frozen()); mids.append([name_id(b.name), meta_id(b.meta)])
+            cur_items.append(items_of(b)); fz.append(fzof(b)); mids.append([name_id(b.name), meta_id(b.meta)])
     out = {
         "mp_type": type(mp).__name__,
         "iter": cur_items,
